@@ -14,9 +14,9 @@ RAISES = ["raise:Injected", "raise:RuntimeError", "raise:LinAlgError", "raise:Ze
           "raise:ValueError", "raise:KeyError", "raise:FloatingPointError",
           "raise:BareInjected", "raise:BareAssertion", "raise:StopIteration"]
 VALS = ["val:nan", "val:inf", "val:-inf", "val:complex", "val:vector", "val:none", "val:list", "val:npnan",
-        "val:arr_nan", "val:empty"]
+        "val:arr_nan", "val:empty", "val:complex_tiny", "val:np_complex_tiny"]
 FORMS = ["form:scalar", "form:triple", "form:listpair", "form:single"]
-SDS = ["sd:zero", "sd:neg", "sd:nan", "sd:inf", "sd:-inf", "sd:complex", "sd:array"]
+SDS = ["sd:zero", "sd:neg", "sd:nan", "sd:inf", "sd:-inf", "sd:complex", "sd:array", "sd:complex_tiny"]
 SDS_WEAK = ["sd:none"]      # statement does not spell these out: any exception is accepted
 
 EXC_NAME = {"Injected": "InjectedTargetError", "LinAlgError": "LinAlgError", "BareInjected": "InjectedTargetError",
